@@ -38,6 +38,7 @@ Inductive expr :=
 
 Inductive stmt :=
 | SAssign (x : string) (e : expr)
+| SAttrAssign (x : string) (field : string) (e : expr)     (* x.field = e  on a local object *)
 | SExpr (e : expr)
 | SIf (c : expr) (th el : list stmt)
 | SRaise (exn : string)
@@ -79,13 +80,15 @@ Notation "'do' x <- r ; k" := (bind r (fun x => k)) (at level 200, x pattern, r 
 
 (* ----------------------------------------------------- generated context *)
 
-Record fundef := { f_params : list string; f_body : list stmt }.
+Record fundef := { f_params : list string; f_defaults : list (string * value); f_body : list stmt }.
 
 (* how a class is constructed; recognised by shape in the extractor *)
 Inductive ctor :=
 | CtorLiteral (norm : string) (base mode : string)   (* value = norm(value); wraps Literal *)
 | CtorChild (base mode : string)                     (* scalar wrapper around child op *)
 | CtorFields (pf : list (string * string))            (* generic: parameter p stored as field f *)
+| CtorReclass                                         (* Abstract(cls): an object of class cls with value None *)
+| CtorInputValue                                      (* AbstractInteger/Boolean(input=None, value=None) *)
 | CtorNone.
 
 Record classdef := {
@@ -95,7 +98,8 @@ Record classdef := {
   c_classmethods : list string;
   c_ctor : ctor;
   c_dataclass : bool;
-  c_dataclass_eq : bool                  (* dataclass installs a structural __eq__ here *)
+  c_dataclass_eq : bool;                 (* dataclass installs a structural __eq__ here *)
+  c_meta : string                        (* metaclass (own or inherited), "" if none *)
 }.
 
 Record genv := {
@@ -353,18 +357,26 @@ Fixpoint all_ints (l : list value) : option (list Z) :=
               end
   end.
 
-Fixpoint bind_params (ps : list string) (args : list value) (kw : list (string * value))
-  : res (list (string * value)) :=
+Fixpoint bind_params_d (ps : list string) (defaults : list (string * value)) (args : list value)
+         (kw : list (string * value)) : res (list (string * value)) :=
   match ps, args with
   | [], [] => Ok []
-  | p :: ps', a :: args' => do r <- bind_params ps' args' kw; Ok ((p, a) :: r)
+  | p :: ps', a :: args' => do r <- bind_params_d ps' defaults args' kw; Ok ((p, a) :: r)
   | p :: ps', [] =>
       match assoc p kw with
-      | Some v => do r <- bind_params ps' [] kw; Ok ((p, v) :: r)
-      | None => Err "TypeError"   (* missing argument *)
+      | Some v => do r <- bind_params_d ps' defaults [] kw; Ok ((p, v) :: r)
+      | None =>
+          match assoc p defaults with
+          | Some v => do r <- bind_params_d ps' defaults [] kw; Ok ((p, v) :: r)
+          | None => Err "TypeError"   (* missing argument *)
+          end
       end
   | [], _ :: _ => Err "TypeError"
   end.
+Definition bind_params (ps : list string) (args : list value) (kw : list (string * value)) :=
+  bind_params_d ps [] args kw.
+Definition bind_fun (fd : fundef) (args : list value) (kw : list (string * value)) :=
+  bind_params_d (f_params fd) (f_defaults fd) args kw.
 
 Definition enum_attr (G : genv) (enum member : string) (z : Z) (a : string) : res value :=
   if String.eqb a "value" then Ok (VInt z)
@@ -429,7 +441,16 @@ Definition get_attr (G : genv) (v : value) (a : string) : res value :=
           | None =>
               match find_method G c a with
               | Some (c', _) => Ok (VBound (VClass c) c' a)   (* unbound/class method *)
-              | None => Err "AttributeError"
+              | None =>
+                  (* a method of the metaclass, bound to the class *)
+                  match find_class (g_classes G) c with
+                  | Some cd =>
+                      match find_method G (c_meta cd) a with
+                      | Some (mc, _) => Ok (VBound (VClass c) mc a)
+                      | None => Err "AttributeError"
+                      end
+                  | None => Err "AttributeError"
+                  end
               end
           end
       end
@@ -476,6 +497,22 @@ Definition construct (G : genv) (cls : string) (args : list value) (kw : list (s
             do b <- bind_params (map fst pf) args kw;
             Ok (VObj cls (map (fun pv : string * value =>
                                  (match assoc (fst pv) pf with Some f => f | None => fst pv end, snd pv)) b))
+        | CtorReclass =>
+            match args with
+            | [VClass k] => Ok (VObj k [("value", VNone)])
+            | [] => Ok (VObj cls [("value", VNone)])
+            | [VNone] => Ok (VObj cls [("value", VNone)])
+            | _ => Err "PyMini:reclass-argument"
+            end
+        | CtorInputValue =>
+            do b <- bind_params_d ["input"; "value"] [("input", VNone); ("value", VNone)] args kw;
+            match assoc "input" b, assoc "value" b with
+            | Some VNone, Some v => Ok (VObj cls [("input", VNone); ("value", v)])
+            | Some (VObj ic ifs), Some _ =>
+                Ok (VObj cls [("input", VObj ic ifs);
+                              ("value", match assoc "__ctx__" ifs with Some v => v | None => VNone end)])
+            | _, _ => Err "AttributeError"
+            end
         | CtorNone => Err "PyMini:not-constructible"
         end
     end
@@ -567,6 +604,8 @@ Definition call_builtin (G : genv) (name : string) (args : list value) : res val
       else if String.eqb name "issubclass" then
         match v, c with
         | VClass a, VClass b => Ok (VBool (is_subclass G a b))
+        | VClass a, VTuple bs =>
+            Ok (VBool (existsb (fun b => match b with VClass bn => is_subclass G a bn | _ => false end) bs))
         | _, _ => Err "TypeError"
         end
       else if String.eqb name "max" then
@@ -672,7 +711,7 @@ with apply (n : nat) (G : genv) (f : value) (args : list value) (kw : list (stri
       | VLam ps body => do b <- bind_params ps args kw; eval n' G b body
       | VFunc name =>
           match assoc name (g_funs G) with
-          | Some fd => do b <- bind_params (f_params fd) args kw; run n' G b (f_body fd)
+          | Some fd => do b <- bind_fun fd args kw; run n' G b (f_body fd)
           | None => Err "NameError"
           end
       | VBound self cls m =>
@@ -680,21 +719,22 @@ with apply (n : nat) (G : genv) (f : value) (args : list value) (kw : list (stri
           | VEnum e _ _ =>
               match assoc e (g_enum_methods G) with
               | Some ms => match assoc m ms with
-                           | Some fd => do b <- bind_params (f_params fd) (self :: args) kw;
+                           | Some fd => do b <- bind_fun fd (self :: args) kw;
                                         run n' G b (f_body fd)
                            | None => Err "AttributeError"
                            end
               | None => Err "AttributeError"
               end
           | VClass c =>
-              (* Class.method(...) : classmethod receives the class, otherwise unbound *)
+              (* Class.method(...) : classmethod receives the class, otherwise unbound;
+                 a metaclass method receives the class as self *)
               match find_class (g_classes G) cls with
               | Some cd =>
                   match assoc m (c_methods cd) with
                   | Some fd =>
-                      if existsb (String.eqb m) (c_classmethods cd)
-                      then do b <- bind_params (f_params fd) (self :: args) kw; run n' G b (f_body fd)
-                      else do b <- bind_params (f_params fd) args kw; run n' G b (f_body fd)
+                      if existsb (String.eqb m) (c_classmethods cd) || negb (existsb (String.eqb cls) (mro_of G c))
+                      then do b <- bind_fun fd (self :: args) kw; run n' G b (f_body fd)
+                      else do b <- bind_fun fd args kw; run n' G b (f_body fd)
                   | None => Err "AttributeError"
                   end
               | None => Err "AttributeError"
@@ -703,7 +743,7 @@ with apply (n : nat) (G : genv) (f : value) (args : list value) (kw : list (stri
               match find_class (g_classes G) cls with
               | Some cd =>
                   match assoc m (c_methods cd) with
-                  | Some fd => do b <- bind_params (f_params fd) (self :: args) kw;
+                  | Some fd => do b <- bind_fun fd (self :: args) kw;
                                run n' G b (f_body fd)
                   | None => Err "AttributeError"
                   end
@@ -711,7 +751,35 @@ with apply (n : nat) (G : genv) (f : value) (args : list value) (kw : list (stri
               end
           end
       | VClass c => construct G c args kw
-      | VBuiltin name => call_builtin G name args
+      | VBuiltin name =>
+          let classes_of := fix co (l : list value) : option (list string) :=
+                              match l with
+                              | [] => Some []
+                              | VClass c :: r => match co r with Some cs => Some (c :: cs) | None => None end
+                              | _ => None
+                              end in
+          let items := match args with [VList l] | [VTuple l] => l | other => other end in
+          match (if String.eqb name "max" then classes_of items else None) with
+          | Some (c0 :: cs) =>
+              (* maxitem = c0; for each item: if item > maxitem (reflected: maxitem.__lt__(item)) *)
+              (fix go (cur : string) (rest : list string) : res value :=
+                 match rest with
+                 | [] => Ok (VClass cur)
+                 | c :: rest' =>
+                     match find_class (g_classes G) cur with
+                     | Some cd =>
+                         match find_method G (c_meta cd) "__lt__" with
+                         | Some (mc, _) =>
+                             do r <- apply n' G (VBound (VClass cur) mc "__lt__") [VClass c] [];
+                             do t <- truthy r;
+                             go (if t then c else cur) rest'
+                         | None => Err "TypeError"
+                         end
+                     | None => Err "TypeError"
+                     end
+                 end) c0 cs
+          | _ => call_builtin G name args
+          end
       | _ => Err "TypeError"
       end
   end
@@ -726,6 +794,14 @@ with run (n : nat) (G : genv) (ρ : env) (ss : list stmt) {struct n} : res value
       | s :: rest =>
           match s with
           | SAssign x e => do v <- eval n' G ρ e; run n' G ((x, v) :: ρ) rest
+          | SAttrAssign x f e =>
+              do v <- eval n' G ρ e;
+              match assoc x ρ with
+              | Some (VObj cls fields) =>
+                  let fields' := (f, v) :: filter (fun kv => negb (String.eqb (fst kv) f)) fields in
+                  run n' G ((x, VObj cls fields') :: ρ) rest
+              | _ => Err "PyMini:attr-assign-target"
+              end
           | SExpr e => do _ <- eval n' G ρ e; run n' G ρ rest
           | SPass => run n' G ρ rest
           | SRaise exn => Err exn
